@@ -352,6 +352,34 @@ func appendPBDesigns(replay bool) []core.Design {
 // parsePBCases: the (facts, PB constraint) pairs of AppendPB.tla given to the constraint front end at
 // once (unit constraints before or after the constraint): parse-time simplification of a PB constraint
 // under facts must leave exactly the models of the conjunction (counted, then solved).
+// pbcdclCases: the inputs enumerated by PBCDCL.tla (sets of at most K constraints over 3 variables) are
+// given to the real solver through the PB front end.
+func pbcdclCases(env *core.Env, emitted []core.Case) []core.Case {
+	var res []core.Case
+	for _, e := range emitted {
+		var cons []gen.M
+		fl, _ := e["F"].([]any)
+		for _, k := range fl {
+			km, _ := k.(map[string]any)
+			cons = append(cons, gen.Ctor("gteq", toInts(km["lits"]), toInts(km["w"]), n(km, "d")))
+		}
+		if len(cons) == 0 {
+			continue
+		}
+		if env.Rand.Intn(2) == 0 {
+			env.Rand.Shuffle(len(cons), func(i, j int) { cons[i], cons[j] = cons[j], cons[i] })
+		}
+		c := gen.APICase("pb", n(e, "n"), false, cons, false, nil, gen.Cfg(false, 0, 0, false, false, true), []gen.M{gen.Op("solve")})
+		res = append(res, c)
+	}
+	limit := env.Pick(1500, 30000)
+	if len(res) > limit {
+		env.Rand.Shuffle(len(res), func(i, j int) { res[i], res[j] = res[j], res[i] })
+		res = res[:limit]
+	}
+	return res
+}
+
 func parsePBCases(env *core.Env, emitted []core.Case) []core.Case {
 	var res []core.Case
 	for i, e := range emitted {
@@ -474,8 +502,14 @@ func init() {
 			{Name: "parse-pb-single-pass", Module: "ParsePB", Cfg: "ParsePB_once.cfg", Workers: 8, XmxMB: 8000, Timeout: 20 * time.Minute, ExpectViolation: "Fixpoint"},
 			{Name: "pb-under-facts", Module: "AppendPB", Cfg: "AppendPB_quick.cfg", Tier: "quick", Workers: 8, XmxMB: 6000, Timeout: 20 * time.Minute, ToCases: parsePBCases},
 			{Name: "pb-under-facts", Module: "AppendPB", Cfg: "AppendPB_thorough.cfg", Tier: "thorough", Workers: 16, XmxMB: 12000, Timeout: 30 * time.Minute, ToCases: parsePBCases},
+			// the search itself over clauses, cardinality and PB constraints (slack rule, clausal analysis over
+			// the literals false BEFORE a propagation, backjump); its inputs are replayed and the recorded
+			// searches of this check are matched against its actions (Mech)
+			{Name: "search-pb", Module: "PBCDCL", Cfg: "PBCDCL_quick.cfg", Tier: "quick", Workers: 8, XmxMB: 8000, Timeout: 20 * time.Minute, ToCases: pbcdclCases},
+			{Name: "search-pb", Module: "PBCDCL", Cfg: "PBCDCL_thorough.cfg", Tier: "thorough", Workers: 16, XmxMB: 24000, Timeout: 60 * time.Minute, ToCases: pbcdclCases},
 		},
 		TraceModule: "APITrace",
+		Mech:        &core.Mech{Module: "SearchTrace", Project: mechAPI, Quick: 400, Thorough: 6000},
 		Cases: func(env *core.Env) []core.Case {
 			r := env.Rand
 			var res []core.Case
